@@ -1024,7 +1024,7 @@ func rC20SortKeys(w *World, r *Report) {
 		}
 	}
 	// the filter
-	if ho := w.Fn("getoptions.helpOutput"); ho != nil {
+	if ho := optionListBuilder(w); ho != nil {
 		okFilter := false
 		for _, c := range callsTo(ho, "builtin:append") {
 			call := c.(*ssa.Call)
